@@ -1331,6 +1331,14 @@ class Engine:
             return BoundMethod(base.path, base.obj, attr, sup=base.cls)
         if isinstance(base, ModRef):
             return self.resolve_dotted(base.dotted + "." + attr)
+        if isinstance(base, FuncRef) and source.is_repo_module(base.module):
+            m_ = source.load(base.module)
+            q_ = f"{base.qual}.{attr}"
+            if base.qual in m_.classes and q_ in m_.functions:
+                decos = [ast.unparse(d) for d in m_.functions[q_].decorator_list]
+                if "staticmethod" in decos:
+                    return FuncRef(base.module, q_)
+                raise Unsupported(f"{q_} reached through the class is not a staticmethod")
         if isinstance(base, Rec):
             if attr in base.fields:
                 return base.fields[attr]
@@ -1672,6 +1680,13 @@ class Engine:
     def call(self, fn, args, kwargs, node):
         if isinstance(fn, ModRef):
             impl = self.prelude.get(fn.dotted)
+            if impl is None and "." in fn.dotted:
+                # an external (library) function with an ASSUMED contract in the registry
+                m_, n_ = fn.dotted.rsplit(".", 1)
+                c_ = self.registry.get(f"{m_}:{n_}")
+                if c_ is not None:
+                    self.trusted_used.add(fn.dotted)
+                    return self.apply_contract(c_, FuncRef(m_, n_), args, kwargs, node)
             if impl is None:
                 raise Unsupported(f"call to unmodelled external {fn.dotted} (line {getattr(node, 'lineno', '?')})")
             self.trusted_used.add(fn.dotted)
@@ -1820,8 +1835,8 @@ class Engine:
     # ---- contracts at call sites
     def apply_contract(self, contract, fr, args, kwargs, node, self_path=None):
         """modular call: check requires, havoc modifies, assume ensures"""
-        mod = source.load(fr.module)
-        fnode = mod.functions.get(fr.qual)
+        mod = source.load(fr.module) if source.is_repo_module(fr.module) else None
+        fnode = mod.functions.get(fr.qual) if mod is not None else None
         names = list(contract.params)
         env = {}
         if fnode is not None:
@@ -1835,8 +1850,8 @@ class Engine:
                 env[pn] = to_slist(env[pn], pt.t)
         site = f"{fr.qual}@{self.site(node)}"
         arg_nodes = {}
-        if node is not None and fnode is not None:
-            pnames = [x.arg for x in fnode.args.args]
+        if node is not None:
+            pnames = [x.arg for x in fnode.args.args] if fnode is not None else list(contract.params)
             off = 1 if (self_path is not None) else 0
             for i, a in enumerate(node.args):
                 if i + off < len(pnames):
